@@ -14,6 +14,7 @@ WEnvsDef == %(wenvs)s
 WSpecialsDef == %(wspecials)s
 ArglessDef == %(argless)s
 FaultsDef == %(faults)s
+DiscardDef == %(discard)s
 St0Def == %(st0)s
 %(ctxdefs)s
 ====
@@ -26,6 +27,7 @@ CFG = """CONSTANTS
   ArglessMacros <- ArglessDef
   Faults <- FaultsDef
   Features = {%(features)s}
+  DiscardMacros <- DiscardDef
   St0 <- St0Def
 %(ctxconst)s
   EmitFaulted = %(emitfaulted)s
@@ -44,7 +46,7 @@ def _set(items):
     return '{' + ', '.join(items) + '}' if items else '{}'
 
 
-def mc_text(ctxname, macros, envs, specials, argless, fault_envs):
+def mc_text(ctxname, macros, envs, specials, argless, fault_envs, discard=()):
     d = contexts.describe(ctxname)
     wm = _set(['<<%s, %s>>' % (tla_seq(m), contexts._sig_tla(d['macros'][m])) for m in macros])
     we = _set(['<<%s, %s, "%s">>' % (tla_seq(e), contexts._sig_tla(d['envs'][e]['args']), d['envs'][e]['body'])
@@ -56,6 +58,7 @@ def mc_text(ctxname, macros, envs, specials, argless, fault_envs):
         only = (set(macros) | set(argless), set(envs) | set(fault_envs))
     return MC % dict(wmacros=wm, wenvs=we, wspecials=_set([tla_seq(s) for s in specials]),
                      argless=_set([tla_seq(z) for z in argless]), faults=_set([tla_seq(f) for f in faults]),
+                     discard=_set([tla_seq(z) for z in discard]),
                      st0=pstate.tla_record(st).replace('AlphaDefault', 'P!AlphaDefault'), ctxdefs=contexts.tla_defs(ctxname, only=only))
 
 
@@ -98,7 +101,7 @@ def canon_model(n, par_node):
         return ('verb', s(n['name']))
     if k == 'group':
         return ('group', s(n['delims']), merge([canon_model(x, par_node) for x in n['body']]))
-    if k == 'math':
+    if k == 'math':       # (name holds the source span of the formula, used by C12 only)
         return ('math', s(n['delims'][0]), s(n['delims'][1]), merge([canon_model(x, par_node) for x in n['body']]))
     if k == 'macro':
         return ('macro', s(n['name']), [(canon_model(a[0], par_node) if a else None) for a in n['args']])
@@ -230,7 +233,7 @@ def jobs(ctxname, shards, maxacts, features, emitfaulted, emitplain, timeout=300
         fault_envs = [e for e in fault_envs if d['envs'].get(e, {}).get('body') != 'legacyverb'] or \
             [e for e in sorted(d['envs']) if d['envs'][e]['body'] == 'nodes'][:1]
         out.append(dict(payload=dict(ctx=ctxname), main='MC_DocCheck',
-                        mc=mc_text(ctxname, sh['macros'], sh['envs'], sh['specials'], sh['argless'], fault_envs),
+                        mc=mc_text(ctxname, sh['macros'], sh['envs'], sh['specials'], sh['argless'], fault_envs, sh.get('discard', ())),
                         cfg=cfg_text(ctxname, maxacts, features, emitfaulted, emitplain),
                         tlc_kw=dict(timeout=timeout, xmx='4g')))
     return out
